@@ -41,6 +41,10 @@ func main() {
 		// tolerate negative / non-numeric seeds deterministically
 		seed = core.Hash64(*seedS)
 	}
+	if flag.NArg() > 0 && flag.Arg(0) == "probe" {
+		props.Probe(flag.Args()[1:])
+		return
+	}
 	if *selftest {
 		os.Exit(props.SelfTest())
 	}
